@@ -51,6 +51,784 @@ fn run_program(text: &str) -> String {
     }
 }
 
+// ---------------------------------------------------------------------------------------------
+// Family `layout`: PEEK / POKE / VARPTR under declaration histories.
+//
+// The property speaks of "the two bytes PEEK reads from and POKE writes to an INTEGER variable": where that
+// variable lives is decided by everything declared before it (VARPTR adds up the sizes of the variables in front,
+// PEEK / POKE walk over them again), so the programs of this family put 0-3 arrays (every element type, one or two
+// dimensions, a few elements or thousands of bytes) and scalars of every type in front of and behind the variable,
+// at module level, in a SUB, in a FUNCTION, in a STATIC SUB (called twice), with DIM SHARED (inspected from inside
+// a SUB) and as a by-reference parameter; the variable itself is a plain INTEGER, an element of an INTEGER array,
+// an INTEGER member of a TYPE variable or of an element of an array of TYPE.  Oracle (the property, nothing about
+// addresses): PEEK(VARPTR(x)) and PEEK(VARPTR(x) + 1) are the low and the high byte of x's 16-bit word, after
+// POKEing the two bytes of b there x = b, and EVERY other variable and array element still holds what it held
+// (small arrays are printed element by element, large ones as a weighted sum).
+// ---------------------------------------------------------------------------------------------
+
+#[derive(Clone, Copy, PartialEq, Debug)]
+enum Ty {
+    Int,
+    Long,
+    Sgl,
+    Dbl,
+    Str,
+    Fix(usize),
+    Card,
+}
+
+impl Ty {
+    fn basic(self) -> String {
+        match self {
+            Ty::Int => "INTEGER".into(),
+            Ty::Long => "LONG".into(),
+            Ty::Sgl => "SINGLE".into(),
+            Ty::Dbl => "DOUBLE".into(),
+            Ty::Str => "STRING".into(),
+            Ty::Fix(n) => format!("STRING * {}", n),
+            Ty::Card => "Card".into(),
+        }
+    }
+    fn sigil(self) -> &'static str {
+        match self {
+            Ty::Int => "%",
+            Ty::Long => "&",
+            Ty::Sgl => "!",
+            Ty::Dbl => "#",
+            Ty::Str => "$",
+            _ => "",
+        }
+    }
+    fn name(self) -> &'static str {
+        match self {
+            Ty::Int => "integer",
+            Ty::Long => "long",
+            Ty::Sgl => "single",
+            Ty::Dbl => "double",
+            Ty::Str => "string",
+            Ty::Fix(_) => "fixed-string",
+            Ty::Card => "type",
+        }
+    }
+}
+
+#[derive(Clone, Debug, PartialEq)]
+enum Val {
+    N(f64),
+    S(String),
+    C(i32, String, i32),
+}
+
+#[derive(Clone, Debug)]
+struct LVar {
+    /// the name as the program writes it (with its sigil when the variable is implicit)
+    name: String,
+    ty: Ty,
+    /// empty: a scalar
+    dims: Vec<(i32, i32)>,
+    shared: bool,
+    /// no DIM: the variable comes into existence with its first assignment
+    implicit: bool,
+    /// numeric arrays of more than 64 elements: filled and summed by loops
+    large: bool,
+    /// seed of the values
+    idx: usize,
+}
+
+impl LVar {
+    fn count(&self) -> usize {
+        self.dims.iter().map(|(l, h)| (h - l + 1) as usize).product()
+    }
+    fn indices(&self) -> Vec<Vec<i32>> {
+        let mut res: Vec<Vec<i32>> = vec![vec![]];
+        for (l, h) in &self.dims {
+            let mut next = vec![];
+            for p in &res {
+                for i in *l..=*h {
+                    let mut q = p.clone();
+                    q.push(i);
+                    next.push(q);
+                }
+            }
+            res = next;
+        }
+        res
+    }
+    fn elem_ref(&self, ix: &[i32]) -> String {
+        if ix.is_empty() {
+            self.name.clone()
+        } else {
+            format!("{}({})", self.name, ix.iter().map(|i| i.to_string()).collect::<Vec<_>>().join(", "))
+        }
+    }
+    /// the value the element with ordinal k (small) / index tuple ix (large) is given
+    fn value(&self, k: usize, ix: &[i32]) -> Val {
+        let c = self.idx as i32;
+        if self.large {
+            let (i, j) = (ix[0], ix.get(1).copied().unwrap_or(0));
+            return Val::N((((i * 3 + j) % 97) + c + 1) as f64);
+        }
+        let k = k as i32;
+        let sign = if (k + c) % 3 == 0 { -1 } else { 1 };
+        let letters = |n: usize| -> String { (0..n).map(|p| (b'a' + ((c as usize * 5 + k as usize * 3 + p) % 26) as u8) as char).collect() };
+        match self.ty {
+            Ty::Int => Val::N((sign * (100 * (c + 1) + k + 1)) as f64),
+            Ty::Long => Val::N((sign * (100_000 * (c + 1) + k + 1)) as f64),
+            Ty::Sgl => Val::N((sign * (10 * (c + 1) + k)) as f64 + 0.5),
+            Ty::Dbl => Val::N((sign * (1000 * (c + 1) + k)) as f64 + 0.25),
+            Ty::Str => Val::S(letters(1 + ((c + k) as usize % 6))),
+            Ty::Fix(n) => Val::S(letters(n)),
+            Ty::Card => Val::C(sign * (300 + 7 * c + k), letters(5), -sign * (20 * c + k + 1)),
+        }
+    }
+    fn bytes(&self) -> usize {
+        let one = match self.ty {
+            Ty::Int => 2,
+            Ty::Long | Ty::Sgl => 4,
+            Ty::Dbl => 8,
+            Ty::Str => 6,
+            Ty::Fix(n) => n,
+            Ty::Card => 9,
+        };
+        one * self.count()
+    }
+    fn weight(ix: &[i32]) -> i64 {
+        let (i, j) = (ix[0] as i64, ix.get(1).copied().unwrap_or(0) as i64);
+        (i + 2 * j) % 5 + 1
+    }
+}
+
+/// Which INTEGER the program inspects.
+#[derive(Clone, Debug, PartialEq)]
+enum Target {
+    Plain,
+    Elem(Vec<i32>),
+    Member(&'static str),
+    ElemMember(Vec<i32>, &'static str),
+}
+
+impl Target {
+    fn name(&self) -> &'static str {
+        match self {
+            Target::Plain => "plain",
+            Target::Elem(_) => "array-element",
+            Target::Member(_) => "type-member",
+            Target::ElemMember(..) => "type-array-element-member",
+        }
+    }
+}
+
+#[derive(Clone, Copy, Debug, PartialEq)]
+enum Scope {
+    Module,
+    Sub,
+    Function,
+    StaticSub,
+    SharedInSub,
+    Param,
+}
+
+impl Scope {
+    fn name(self) -> &'static str {
+        match self {
+            Scope::Module => "module",
+            Scope::Sub => "sub-local",
+            Scope::Function => "function-local",
+            Scope::StaticSub => "static-sub-local",
+            Scope::SharedInSub => "dim-shared-from-sub",
+            Scope::Param => "byref-parameter",
+        }
+    }
+}
+
+#[derive(Clone, Debug)]
+struct Layout {
+    scope: Scope,
+    target: Target,
+    owner: LVar,
+    /// in the owner's scope, before / after it
+    pre: Vec<LVar>,
+    post: Vec<LVar>,
+    /// the other scope: module-level variables when the owner is local to a procedure, locals of the procedure when
+    /// the owner is a module-level variable looked at from inside a procedure (nothing for Scope::Module)
+    other: Vec<LVar>,
+    a: i32,
+    b: i32,
+    /// 0: VARPTR written out in every PEEK / POKE; 1: kept in PP%, which exists from the start; 2: PP% made on the spot
+    ptr_mode: u8,
+    /// DEF SEG = VARSEG(x) also where x is in the default segment (it is always there for array elements)
+    def_seg: bool,
+    /// all DIMs of a scope first, then the assignments (implicit variables then come after every declared one)
+    dims_first: bool,
+}
+
+fn fmt_n(x: f64) -> String {
+    let t = if x == x.trunc() { format!("{}", x as i64) } else { format!("{}", x) };
+    if x < 0.0 { t } else { format!(" {}", t) }
+}
+
+struct Emit {
+    lines: Vec<String>,
+    expected: Vec<String>,
+}
+
+impl Emit {
+    fn stmt(&mut self, indent: &str, s: String) {
+        self.lines.push(format!("{}{}", indent, s));
+    }
+}
+
+impl Layout {
+    fn x_ref(&self) -> String {
+        match &self.target {
+            Target::Plain => self.owner.name.clone(),
+            Target::Elem(ix) => self.owner.elem_ref(ix),
+            Target::Member(f) => format!("{}.{}", self.owner.name, f),
+            Target::ElemMember(ix, f) => format!("{}.{}", self.owner.elem_ref(ix), f),
+        }
+    }
+
+    fn in_array(&self) -> bool {
+        matches!(self.target, Target::Elem(_) | Target::ElemMember(..))
+    }
+
+    fn declare(v: &LVar, ind: &str, out: &mut Vec<String>) {
+        if v.implicit {
+            return;
+        }
+        let dims = if v.dims.is_empty() {
+            String::new()
+        } else {
+            format!(
+                "({})",
+                v.dims.iter().map(|(l, h)| if *l == 0 && (h % 2 == 1) { format!("{}", h) } else { format!("{} TO {}", l, h) }).collect::<Vec<_>>().join(", ")
+            )
+        };
+        out.push(format!("{}DIM {}{}{} AS {}", ind, if v.shared { "SHARED " } else { "" }, v.name, dims, v.ty.basic()));
+    }
+
+    fn assign_val(target: &str, val: &Val, ind: &str, out: &mut Vec<String>) {
+        match val {
+            Val::N(x) => out.push(format!("{}{} = {}", ind, target, if *x == x.trunc() { format!("{}", *x as i64) } else { format!("{}", x) })),
+            Val::S(s) => out.push(format!("{}{} = \"{}\"", ind, target, s)),
+            Val::C(v, s, l) => {
+                out.push(format!("{}{}.V = {}", ind, target, v));
+                out.push(format!("{}{}.S = \"{}\"", ind, target, s));
+                out.push(format!("{}{}.L = {}", ind, target, l));
+            }
+        }
+    }
+
+    fn init(v: &LVar, ind: &str, out: &mut Vec<String>) {
+        if v.large {
+            let c = v.idx as i32 + 1;
+            if v.dims.len() == 1 {
+                out.push(format!("{}FOR CI% = {} TO {} : {}(CI%) = ((CI% * 3) MOD 97) + {} : NEXT", ind, v.dims[0].0, v.dims[0].1, v.name, c));
+            } else {
+                out.push(format!(
+                    "{}FOR CI% = {} TO {} : FOR CJ% = {} TO {} : {}(CI%, CJ%) = ((CI% * 3 + CJ%) MOD 97) + {} : NEXT : NEXT",
+                    ind, v.dims[0].0, v.dims[0].1, v.dims[1].0, v.dims[1].1, v.name, c
+                ));
+            }
+            return;
+        }
+        if v.dims.is_empty() {
+            Self::assign_val(&v.name, &v.value(0, &[]), ind, out);
+        } else {
+            for (k, ix) in v.indices().iter().enumerate() {
+                Self::assign_val(&v.elem_ref(ix), &v.value(k, ix), ind, out);
+            }
+        }
+    }
+
+    /// PRINT statements for every element of v and the lines they must produce; `over` = the element / member of v
+    /// that holds `x` instead of its initial value.
+    fn show(v: &LVar, over: Option<(&Target, i32)>, ind: &str, e: &mut Emit) {
+        let put = |e: &mut Emit, r: &str, val: &Val, o: Option<(&'static str, i32)>| match val {
+            Val::N(x) => {
+                e.stmt(ind, format!("PRINT {}", r));
+                e.expected.push(fmt_n(match o {
+                    Some((_, b)) => b as f64,
+                    None => *x,
+                }));
+            }
+            Val::S(s) => {
+                e.stmt(ind, format!("PRINT \"[\" + {} + \"]\"", r));
+                e.expected.push(format!("[{}]", s));
+            }
+            Val::C(vv, s, l) => {
+                e.stmt(ind, format!("PRINT {}.V : PRINT \"[\" + {}.S + \"]\" : PRINT {}.L", r, r, r));
+                let (vv, l) = match o {
+                    Some(("V", b)) => (b, *l),
+                    Some((_, b)) => (*vv, b),
+                    None => (*vv, *l),
+                };
+                e.expected.push(fmt_n(vv as f64));
+                e.expected.push(format!("[{}]", s));
+                e.expected.push(fmt_n(l as f64));
+            }
+        };
+        if v.large {
+            // weighted sum over all elements, in a LONG
+            let mut sum: i64 = 0;
+            for ix in v.indices() {
+                let mut x = match v.value(0, &ix) {
+                    Val::N(x) => x as i64,
+                    _ => 0,
+                };
+                if let Some((Target::Elem(at), b)) = over {
+                    if *at == ix {
+                        x = b as i64;
+                    }
+                }
+                sum += x * LVar::weight(&ix);
+            }
+            if v.dims.len() == 1 {
+                e.stmt(ind, format!("CK& = 0 : FOR CI% = {} TO {} : CW& = CI% MOD 5 + 1 : CK& = CK& + {}(CI%) * CW& : NEXT : PRINT CK&", v.dims[0].0, v.dims[0].1, v.name));
+            } else {
+                e.stmt(
+                    ind,
+                    format!(
+                        "CK& = 0 : FOR CI% = {} TO {} : FOR CJ% = {} TO {} : CW& = (CI% + 2 * CJ%) MOD 5 + 1 : CK& = CK& + {}(CI%, CJ%) * CW& : NEXT : NEXT : PRINT CK&",
+                        v.dims[0].0, v.dims[0].1, v.dims[1].0, v.dims[1].1, v.name
+                    ),
+                );
+            }
+            e.expected.push(fmt_n(sum as f64));
+            return;
+        }
+        if v.dims.is_empty() {
+            let o = match over {
+                Some((Target::Plain, b)) => Some(("", b)),
+                Some((Target::Member(f), b)) => Some((*f, b)),
+                _ => None,
+            };
+            put(e, &v.name, &v.value(0, &[]), o);
+        } else {
+            for (k, ix) in v.indices().iter().enumerate() {
+                let o = match over {
+                    Some((Target::Elem(at), b)) if at == ix => Some(("", b)),
+                    Some((Target::ElemMember(at, f), b)) if at == ix => Some((*f, b)),
+                    _ => None,
+                };
+                put(e, &v.elem_ref(ix), &v.value(k, ix), o);
+            }
+        }
+    }
+
+    /// DIMs and assignments of a scope's variables, in declaration order.
+    fn set_up(&self, vars: &[&LVar], ind: &str, e: &mut Emit) {
+        let mut out = vec![];
+        if self.dims_first {
+            for v in vars {
+                Self::declare(v, ind, &mut out);
+            }
+            for v in vars {
+                Self::init(v, ind, &mut out);
+            }
+        } else {
+            for v in vars {
+                Self::declare(v, ind, &mut out);
+                Self::init(v, ind, &mut out);
+            }
+        }
+        e.lines.extend(out);
+    }
+
+    /// x = a, both PEEKs, both POKEs, both PEEKs again, x.
+    fn inspect(&self, x: &str, ind: &str, e: &mut Emit) {
+        let wa = (self.a as i16) as u16;
+        let wb = (self.b as i16) as u16;
+        e.stmt(ind, format!("{} = {}", x, self.a));
+        if self.in_array() || self.def_seg {
+            e.stmt(ind, format!("DEF SEG = VARSEG({})", x));
+        }
+        let p = if self.ptr_mode == 0 {
+            format!("VARPTR({})", x)
+        } else {
+            e.stmt(ind, format!("PP% = VARPTR({})", x));
+            "PP%".to_owned()
+        };
+        e.stmt(ind, format!("PRINT PEEK({}); PEEK({} + 1)", p, p));
+        e.expected.push(format!("{}{}", fmt_n((wa & 0xFF) as f64), format!(" {}", fmt_n((wa >> 8) as f64))));
+        e.stmt(ind, format!("POKE {}, {}", p, wb & 0xFF));
+        e.stmt(ind, format!("POKE {} + 1, {}", p, wb >> 8));
+        e.stmt(ind, format!("PRINT PEEK({}); PEEK({} + 1)", p, p));
+        e.expected.push(format!("{}{}", fmt_n((wb & 0xFF) as f64), format!(" {}", fmt_n((wb >> 8) as f64))));
+        if self.in_array() || self.def_seg {
+            e.stmt(ind, "DEF SEG".to_owned());
+        }
+        e.stmt(ind, format!("PRINT {}", x));
+        e.expected.push(fmt_n(self.b as f64));
+    }
+
+    fn uses_card(&self) -> bool {
+        self.pre.iter().chain(&self.post).chain(&self.other).chain(std::iter::once(&self.owner)).any(|v| v.ty == Ty::Card)
+    }
+
+    /// (program text, expected output lines joined like `run_program` joins them)
+    fn program(&self) -> (String, String) {
+        let mut e = Emit { lines: vec![], expected: vec![] };
+        if self.uses_card() {
+            e.lines.push("TYPE Card\n  V AS INTEGER\n  S AS STRING * 5\n  L AS INTEGER\nEND TYPE".to_owned());
+        }
+        let own: Vec<&LVar> = self.pre.iter().chain(std::iter::once(&self.owner)).chain(self.post.iter()).collect();
+        let other: Vec<&LVar> = self.other.iter().collect();
+        let x = self.x_ref();
+        let show_own = |e: &mut Emit, ind: &str, over_b: i32| {
+            for v in self.pre.iter() {
+                Self::show(v, None, ind, e);
+            }
+            Self::show(&self.owner, Some((&self.target, over_b)), ind, e);
+            for v in self.post.iter() {
+                Self::show(v, None, ind, e);
+            }
+        };
+        match self.scope {
+            Scope::Module => {
+                if self.ptr_mode == 1 {
+                    e.lines.push("PP% = 0".into());
+                }
+                self.set_up(&own, "", &mut e);
+                self.inspect(&x, "", &mut e);
+                show_own(&mut e, "", self.b);
+            }
+            Scope::Sub | Scope::Function | Scope::StaticSub => {
+                if self.scope == Scope::Function {
+                    e.lines.push("DECLARE FUNCTION FQ% ()".into());
+                }
+                self.set_up(&other, "", &mut e);
+                let calls = if self.scope == Scope::StaticSub { 2 } else { 1 };
+                // the procedure's body and what it prints
+                let mut body = Emit { lines: vec![], expected: vec![] };
+                if self.ptr_mode == 1 {
+                    body.lines.push("  PP% = 0".into());
+                }
+                self.set_up(&own, "  ", &mut body);
+                self.inspect(&x, "  ", &mut body);
+                show_own(&mut body, "  ", self.b);
+                for _ in 0..calls {
+                    if self.scope == Scope::Function {
+                        e.lines.push("RQ% = FQ%".into());
+                    } else {
+                        e.lines.push("Q".into());
+                    }
+                    e.expected.extend(body.expected.iter().cloned());
+                }
+                for v in &self.other {
+                    Self::show(v, None, "", &mut e);
+                }
+                e.lines.push("END".into());
+                e.lines.push(match self.scope {
+                    Scope::Function => "FUNCTION FQ%".to_owned(),
+                    Scope::StaticSub => "SUB Q STATIC".to_owned(),
+                    _ => "SUB Q".to_owned(),
+                });
+                e.lines.extend(body.lines);
+                e.lines.push(if self.scope == Scope::Function { "  FQ% = 1\nEND FUNCTION".to_owned() } else { "END SUB".to_owned() });
+            }
+            Scope::SharedInSub => {
+                self.set_up(&own, "", &mut e);
+                e.lines.push("Q".into());
+                // inside Q: its own locals first, then the look at the shared variable, then the locals again
+                let mut body = Emit { lines: vec![], expected: vec![] };
+                if self.ptr_mode == 1 {
+                    body.lines.push("  PP% = 0".into());
+                }
+                self.set_up(&other, "  ", &mut body);
+                self.inspect(&x, "  ", &mut body);
+                for v in &self.other {
+                    Self::show(v, None, "  ", &mut body);
+                }
+                e.expected.extend(body.expected.iter().cloned());
+                show_own(&mut e, "", self.b);
+                e.lines.push("END".into());
+                e.lines.push("SUB Q".into());
+                e.lines.extend(body.lines);
+                e.lines.push("END SUB".into());
+            }
+            Scope::Param => {
+                self.set_up(&own, "", &mut e);
+                e.lines.push(format!("{} = {}", x, self.a));
+                e.lines.push(format!("K9& = 70000 : P K9&, {}", x));
+                let mut body = Emit { lines: vec![], expected: vec![] };
+                if self.ptr_mode == 1 {
+                    body.lines.push("  PP% = 0".into());
+                }
+                self.set_up(&other, "  ", &mut body);
+                // the parameter is a variable of the procedure; the caller's variable gets its value on return
+                let mut inner = self.clone();
+                inner.target = Target::Plain;
+                inner.inspect("PX", "  ", &mut body);
+                body.stmt("  ", "PRINT PK".to_owned());
+                body.expected.push(fmt_n(70000.0));
+                for v in &self.other {
+                    Self::show(v, None, "  ", &mut body);
+                }
+                e.expected.extend(body.expected.iter().cloned());
+                show_own(&mut e, "", self.b);
+                e.lines.push("END".into());
+                e.lines.push("SUB P (PK AS LONG, PX AS INTEGER)".into());
+                e.lines.extend(body.lines);
+                e.lines.push("END SUB".into());
+            }
+        }
+        let mut text = e.lines.join("\n");
+        text.push('\n');
+        (text, e.expected.join("|").trim_end_matches('|').to_owned())
+    }
+
+    fn vars_mut(&mut self) -> [&mut Vec<LVar>; 3] {
+        [&mut self.pre, &mut self.post, &mut self.other]
+    }
+}
+
+const ALL_TYPES: [Ty; 8] = [Ty::Int, Ty::Long, Ty::Sgl, Ty::Dbl, Ty::Str, Ty::Fix(3), Ty::Card, Ty::Fix(8)];
+
+/// A variable for the surroundings: `array` 0 scalar, 1 small array, 2 large array (numeric types; small otherwise).
+fn make_var(rng: &mut Rng, name: &str, ty: Ty, array: u8, shared: bool, idx: usize) -> LVar {
+    let numeric = matches!(ty, Ty::Int | Ty::Long | Ty::Sgl | Ty::Dbl);
+    let (dims, large): (Vec<(i32, i32)>, bool) = match array {
+        0 => (vec![], false),
+        2 if numeric => {
+            let one = match ty {
+                Ty::Int => 2,
+                Ty::Dbl => 8,
+                _ => 4,
+            };
+            let n = (rng.range(3000, 8000) as i32) / one; // 3000..8000 bytes
+            if rng.chance(1, 2) {
+                let lo = rng.range(0, 1) as i32;
+                (vec![(lo, lo + n - 1)], true)
+            } else {
+                let cols = rng.range(5, 25) as i32;
+                (vec![(1, (n / cols).max(2)), (0, cols - 1)], true)
+            }
+        }
+        _ => {
+            if rng.chance(2, 3) {
+                let lo = *rng.pick(&[0, 0, 1, 1, -2, 5]);
+                (vec![(lo, lo + rng.range(0, 5) as i32)], false)
+            } else {
+                let l2 = rng.range(0, 1) as i32;
+                (vec![(1, rng.range(1, 3) as i32), (l2, l2 + rng.range(1, 2) as i32)], false)
+            }
+        }
+    };
+    let implicit = dims.is_empty() && !shared && !matches!(ty, Ty::Fix(_) | Ty::Card) && rng.chance(1, 3);
+    LVar {
+        name: if implicit { format!("{}{}", name, ty.sigil()) } else { name.to_owned() },
+        ty,
+        dims,
+        shared,
+        implicit,
+        large,
+        idx,
+    }
+}
+
+fn layout_family(rep: &mut Report, rng: &mut Rng, thorough: bool, bs: &[i32]) {
+    let scopes = [Scope::Module, Scope::Sub, Scope::Function, Scope::StaticSub, Scope::SharedInSub, Scope::Param];
+    let mut specs: Vec<Layout> = vec![];
+    let mut ty_at = 0usize;
+    let rounds = if thorough { 30 } else { 3 };
+    for round in 0..rounds {
+        for &scope in &scopes {
+            for t in 0..4 {
+                for arrays_before in 0..=3usize {
+                    for arrays_after in 0..=1usize {
+                        let mut idx = 0usize;
+                        let mut budget: usize = 24_000; // VARPTR is an INTEGER function: everything stays below 32768
+                        let mut next_ty = || {
+                            ty_at += 1;
+                            ALL_TYPES[ty_at % ALL_TYPES.len()]
+                        };
+                        let owner_shared = scope == Scope::SharedInSub;
+                        // the owner of x
+                        let big_owner = rng.chance(1, 3);
+                        let mut owner = match t {
+                            0 => make_var(rng, "X", Ty::Int, 0, owner_shared, 0),
+                            1 => make_var(rng, "XA", Ty::Int, if big_owner { 2 } else { 1 }, owner_shared, 0),
+                            2 => make_var(rng, "XC", Ty::Card, 0, owner_shared, 0),
+                            _ => make_var(rng, "XCA", Ty::Card, 1, owner_shared, 0),
+                        };
+                        owner.implicit = owner.implicit && t == 0;
+                        budget -= owner.bytes().min(budget);
+                        let pick_ix = |rng: &mut Rng, v: &LVar| -> Vec<i32> {
+                            let all = v.indices();
+                            match rng.below(3) {
+                                0 => all[0].clone(),
+                                1 => all[all.len() - 1].clone(),
+                                _ => all[rng.below(all.len() as u64) as usize].clone(),
+                            }
+                        };
+                        let target = match t {
+                            0 => Target::Plain,
+                            1 => Target::Elem(pick_ix(rng, &owner)),
+                            2 => Target::Member(if rng.chance(1, 2) { "V" } else { "L" }),
+                            _ => Target::ElemMember(pick_ix(rng, &owner), if rng.chance(1, 2) { "V" } else { "L" }),
+                        };
+                        let local_scope = matches!(scope, Scope::Sub | Scope::Function | Scope::StaticSub);
+                        let mut surround = |rng: &mut Rng, n_arrays: usize, prefix: &str, shared_ok: bool, budget: &mut usize, idx: &mut usize| -> Vec<LVar> {
+                            let mut vs = vec![];
+                            let n_scalars = rng.range(0, 3) as usize;
+                            let mut kinds: Vec<u8> = vec![];
+                            for _ in 0..n_arrays {
+                                kinds.push(if rng.chance(1, 3) { 2 } else { 1 });
+                            }
+                            for _ in 0..n_scalars {
+                                kinds.push(0);
+                            }
+                            // arrays and scalars in a random order
+                            for i in (1..kinds.len()).rev() {
+                                let j = rng.below(i as u64 + 1) as usize;
+                                kinds.swap(i, j);
+                            }
+                            for k in kinds {
+                                *idx += 1;
+                                let ty = next_ty();
+                                let sh = shared_ok && rng.chance(1, 3);
+                                let mut v = make_var(rng, &format!("{}{}", prefix, *idx), ty, k, sh, *idx);
+                                if v.bytes() > *budget {
+                                    v = make_var(rng, &format!("{}{}", prefix, *idx), ty, k.min(1), v.shared, *idx);
+                                }
+                                *budget -= v.bytes().min(*budget);
+                                vs.push(v);
+                            }
+                            vs
+                        };
+                        let own_prefix = if local_scope { "L" } else { "M" };
+                        let pre = surround(rng, arrays_before, own_prefix, !local_scope, &mut budget, &mut idx);
+                        let post = surround(rng, arrays_after, own_prefix, !local_scope, &mut budget, &mut idx);
+                        // the other scope: module level in front of a procedure's locals (an earlier memory block), or
+                        // the locals of the procedure that looks at a module-level variable
+                        let other = if scope == Scope::Module {
+                            vec![]
+                        } else {
+                            let n = (arrays_before + round + t) % 4;
+                            surround(rng, n, if local_scope { "M" } else { "L" }, local_scope, &mut budget, &mut idx)
+                        };
+                        let k = specs.len();
+                        let (a, b) = if k % 3 != 2 {
+                            (bs[(k * 5 + 1) % bs.len()], bs[(k * 11 + 7) % bs.len()])
+                        } else {
+                            (rng.range(-32768, 32767) as i32, rng.range(-32768, 32767) as i32)
+                        };
+                        specs.push(Layout {
+                            scope,
+                            target,
+                            owner,
+                            pre,
+                            post,
+                            other,
+                            a,
+                            b,
+                            ptr_mode: rng.below(3) as u8,
+                            def_seg: rng.chance(1, 3),
+                            dims_first: rng.chance(1, 3),
+                        });
+                    }
+                }
+            }
+        }
+    }
+    let run = |text: &str| -> String {
+        match std::panic::catch_unwind(|| run_in_memory(text, b"", 5_000_000, None, false)) {
+            Ok(Ok(r)) => {
+                let out = String::from_utf8_lossy(&r.stdout).split("\r\n").map(|l| l.trim_end().to_owned()).collect::<Vec<_>>().join("|").trim_end_matches('|').to_owned();
+                match r.result {
+                    Ok(()) if r.budget_exhausted => format!("{}|instruction budget exhausted", out),
+                    Ok(()) => out,
+                    Err(e) => format!("{}|runtime-error {:?}", out, e),
+                }
+            }
+            Ok(Err(e)) => format!("front-end-error {:?}", e),
+            Err(_) => "panic".to_owned(),
+        }
+    };
+    let mut reported: std::collections::BTreeSet<String> = Default::default();
+    for (k, spec) in specs.iter().enumerate() {
+        let (text, expected) = spec.program();
+        let out = run(&text);
+        let arrays_before = spec.pre.iter().filter(|v| !v.dims.is_empty()).count();
+        let arrays_elsewhere = spec.other.iter().filter(|v| !v.dims.is_empty()).count();
+        rep.case(Some(format!("layout{}", k)));
+        rep.bump("program.layout");
+        rep.bump(&format!("layout.scope.{}", spec.scope.name()));
+        rep.bump(&format!("layout.target.{}", spec.target.name()));
+        rep.bump(&format!("layout.arrays-before-in-scope.{}", arrays_before));
+        rep.bump(&format!("layout.arrays-in-other-scope.{}", arrays_elsewhere));
+        for v in spec.pre.iter().chain(&spec.post).chain(&spec.other) {
+            rep.bump(&format!(
+                "layout.surrounding.{}{}",
+                v.ty.name(),
+                if v.dims.is_empty() { "" } else if v.large { "-array-large" } else if v.dims.len() == 2 { "-array-2d" } else { "-array-1d" }
+            ));
+        }
+        if out != expected {
+            let sig = format!("program:layout:{}", spec.scope.name());
+            // one (shrunk) report per scope and target kind
+            if !reported.insert(format!("{}:{}", sig, spec.target.name())) {
+                rep.bump("layout.further-failures-not-reported");
+                continue;
+            }
+            // shrink: drop surrounding variables while the program still disagrees with the property
+            let mut small = spec.clone();
+            loop {
+                let mut changed = false;
+                for which in 0..3 {
+                    let mut i = 0;
+                    while i < small.vars_mut()[which].len() {
+                        let mut cand = small.clone();
+                        cand.vars_mut()[which].remove(i);
+                        let (t, e) = cand.program();
+                        if run(&t) != e {
+                            small = cand;
+                            changed = true;
+                        } else {
+                            i += 1;
+                        }
+                    }
+                }
+                for f in 0..3u8 {
+                    let mut cand = small.clone();
+                    match f {
+                        0 if cand.ptr_mode != 0 => cand.ptr_mode = 0,
+                        1 if cand.def_seg => cand.def_seg = false,
+                        2 if cand.dims_first => cand.dims_first = false,
+                        _ => continue,
+                    }
+                    let (t, e) = cand.program();
+                    if run(&t) != e {
+                        small = cand;
+                        changed = true;
+                    }
+                }
+                if !changed {
+                    break;
+                }
+            }
+            let (text, expected) = small.program();
+            let out = run(&text);
+            rep.fail(Failure {
+                kind: Kind::ImplVsProperty,
+                signature: sig,
+                input: text,
+                implementation: out,
+                expected,
+                note: format!(
+                    "the INTEGER inspected is a {} ({}); the bytes PEEK reads at VARPTR(x), VARPTR(x) + 1 are x's word, low byte first; POKE there changes x and nothing else (every variable and array element is printed afterwards; large arrays as a weighted sum)",
+                    small.target.name(),
+                    small.scope.name()
+                ),
+            });
+        }
+        if k == 37 {
+            rep.sample(J::s(text));
+        }
+    }
+}
+
 fn main() {
     std::panic::set_hook(Box::new(|_| {}));
     let mut rng = Rng::from_env();
@@ -60,7 +838,7 @@ fn main() {
          boundary/one-hot/complement set plus random pairs (class = operand pair); doubles: all powers of two, boundary \
          mantissas x boundary exponents, subnormals, values beyond 2^63, +-0, infinities, NaN patterns, random bit patterns \
          (class = bit pattern); program-level AND/OR/NOT/PEEK/POKE and MKD$/CVD (8 arbitrary bytes; doubles computed by \
-         repeated doubling/halving) through the in-memory interpreter hook (class = program text). A case is non-trivial unless every operand is 0.",
+         repeated doubling/halving) through the in-memory interpreter hook (class = program text); PEEK/POKE/VARPTR under declaration histories (family layout: the INTEGER is a plain variable, an array element, a TYPE member or a member of an element of an array of TYPE, with 0-3 arrays of every element type, 1-2 dimensions, small and large, and scalars of every type before and after it, at module level, local to a SUB / FUNCTION / STATIC SUB, DIM SHARED seen from a SUB, and as a by-reference parameter; every variable and array element is printed after the POKEs). A case is non-trivial unless every operand is 0.",
     );
     let thorough = rep.is_thorough();
 
@@ -255,6 +1033,13 @@ fn main() {
         if k == 0 {
             rep.sample(J::s(text));
         }
+    }
+
+    // ---- 3b. PEEK / POKE / VARPTR under declaration histories (family `layout`, see above) ------------
+    {
+        // a stream of its own: the random choices of the sections below stay what they were
+        let mut lrng = Rng(rng.0 ^ 0x0C19_1A70);
+        layout_family(&mut rep, &mut lrng, thorough, &bs);
     }
 
     // ---- 4. doubles: MKD$/CVD vs IEEE-754 and vs the Lean model (RbModel.Bits.f64ToBytes / bytesToF64) ----
